@@ -19,6 +19,7 @@ def run(repo, res, tier):
     multidict.rule_p4(repo, res)
     multidict.rule_p5(repo, res)
     multidict.rule_p6(repo, res)
+    multidict.rule_p7(repo, res)
     multidict.rule_m2(repo, res)
     multidict.rule_is_value(repo, res)
     multidict.rule_m4_eq(repo, res)
